@@ -228,7 +228,7 @@ def run(tier):
         ck.stage("pytest with the recording plugin on %s" % repo)
         jobs = [("main", focus if tier == "quick" else [str(tests_dir)], sd)]
         if tier == "thorough":
-            jobs += [("seed%d" % k, focus, sd * 100 + 17 + k) for k in range(1, 5)]
+            jobs += [("seed%d" % k, focus, sd * 100 + 17 + k) for k in range(1, 9)]
         with ThreadPoolExecutor(max(1, min(len(jobs), c.NPROC, 4))) as ex:
             outs = list(ex.map(lambda j: run_pytest(repo, j[1], scratch, j[0], j[2], 1200 if tier == "quick" else 3000), jobs))
         recs = []
@@ -333,10 +333,13 @@ def _binding_demo(ck, walks, engines):
         a["evs"][k]["post"]["defined"][-1] = a["evs"][k]["post"]["defined"][-1][:-1]     # index list one entry short
         k2 = next(i for i, e in enumerate(b["evs"]) if e["op"] in ("query", "dist"))
         b["evs"][k2]["q_ok"] = False
-        rej, inv = validate_engines(ck, [a, b, good], "demo_engine", report=False)
-        if set(rej) != {0, 1} or inv:
-            raise c.MachineryError("binding demonstration failed (engine): corrupted traces rejected = %s, expected the first two only" % sorted(rej))
-        demo["engine"] = "index list of one add event shortened -> rejected after %d matched events; q_ok of one query set FALSE -> rejected after %d; the intact trace accepted" % (rej[0], rej[1])
+        d = json.loads(json.dumps(ec[0]))
+        d["evs"][k]["post"]["treeof"][-1][1] += 1                                        # node -> tree map names another tree
+        rej, inv = validate_engines(ck, [a, b, d, good], "demo_engine", report=False)
+        if set(rej) != {0, 1, 2} or inv:
+            raise c.MachineryError("binding demonstration failed (engine): corrupted traces rejected = %s, expected the first three only" % sorted(rej))
+        demo["engine"] = ("index list of one add event shortened -> rejected after %d matched events; q_ok of one query set FALSE -> rejected after %d; "
+                          "one entry of the node->tree map changed -> rejected after %d; the intact trace accepted" % (rej[0], rej[1], rej[2]))
     ck.extra["binding_demo"] = demo
     ck.require("walk" in demo and "engine" in demo or ck.extra.get("tests_failed_or_errored", 0) > 0,
                "no accepted trace was available for the binding demonstration")
@@ -362,7 +365,7 @@ def _vacuity(ck, tests, walks, engines, focus):
             (sum(1 for w_ in mw if any(e["ev"] == "ok" for e in w_["evs"])) >= 6, "fewer than 6 build behaviours with placements"),
             (a.get("walk:ok", 0) >= 25 and a.get("walk:root", 0) >= 8 and a.get("walk:finish", 0) >= 10, "too few walk events %s" % a),
             (len(me) >= 45, "fewer than 45 engine objects (%d)" % len(me)),
-            (a.get("engine:add", 0) >= 120 and a.get("engine:remove", 0) >= 3 and a.get("engine:concat", 0) >= 1, "too few mutating engine events %s" % a),
+            (a.get("engine:add", 0) >= 120 and a.get("engine:remove", 0) >= 2 and a.get("engine:concat", 0) >= 1, "too few mutating engine events %s" % a),
             (a.get("engine:query", 0) >= 100 and a.get("engine:point", 0) >= 60 and a.get("engine:dist", 0) >= 5, "too few read-only engine events %s" % a)]
     for ok, msg in need:
         if ok:
